@@ -307,6 +307,25 @@ func (x *FnExec) autoInvariants(fr *frame, n *node, li *loopInfo, phiVal func(p 
 		} else {
 			out = append(out, x.cmp("<=", phiVal(p), init, p.Type()))
 		}
+		// range-over-slice shape: header tests (p+1) < len(s) with s fixed before the loop and p starting at -1:
+		// then p < len(s) throughout (and p+1 == len(s) on exit)
+		if dir > 0 && initC.Value != nil && initC.Int64() == -1 {
+			if iff, ok := n.b.Instrs[len(n.b.Instrs)-1].(*ssa.If); ok {
+				if cmpI, ok := iff.Cond.(*ssa.BinOp); ok && cmpI.Op == token.LSS {
+					if inc, ok := cmpI.X.(*ssa.BinOp); ok && inc.Op == token.ADD && inc.X == p {
+						if c1, ok := inc.Y.(*ssa.Const); ok && c1.Value != nil && c1.Int64() == 1 {
+							if call, ok := cmpI.Y.(*ssa.Call); ok {
+								if bi, ok := call.Call.Value.(*ssa.Builtin); ok && bi.Name() == "len" && !li.blocks[call.Block()] {
+									if lv, ok := n.env[call]; ok {
+										out = append(out, x.cmp("<", phiVal(p), lv.S, p.Type()))
+									}
+								}
+							}
+						}
+					}
+				}
+			}
+		}
 	}
 	return out
 }
